@@ -47,6 +47,8 @@ def expand(seval, exprs, parent=None):
                     exprs.clear()
                     for expr in expanded:
                         exprs.append(expr)
+                    # the recursive call above has expanded the result completely
+                    return exprs
                 else:
                     return expanded
 
